@@ -448,6 +448,12 @@ func (m *MemMapFs) Rename(oldname, newname string) error {
 
 		m.registerWithParent(fileData, 0)
 	} else {
+		// rename(2) resolves the directory of the source, then the directory of the target,
+		// and only then looks for the source: with the directory of the source present, a
+		// target below a regular file is ENOTDIR, not ENOENT.
+		if d, err := m.lockfreeOpen(filepath.Dir(oldname)); err == nil && mem.GetFileInfo(d).IsDir() && m.lockfreeBelowFile(newname) {
+			return &os.LinkError{Op: "rename", Old: oldname, New: newname, Err: syscall.ENOTDIR}
+		}
 		return &os.PathError{Op: "rename", Path: oldname, Err: ErrFileNotFound}
 	}
 	return nil
